@@ -2,6 +2,9 @@ package checks
 
 import (
 	"fmt"
+	"sort"
+	"strings"
+	"sync"
 	"sync/atomic"
 	"time"
 
@@ -102,14 +105,12 @@ func c07ServiceLevel(c *kit.Ctx) {
 			mine = append(mine, it)
 		}
 	}
-	if len(mine) == 0 {
-		return
-	}
 	srv := kit.StartServer(false, false, 0)
 	base := kit.Snapshot()
 	for _, it := range mine {
 		c07svcRun(c, srv, it)
 	}
+	c07svcHostileSDP(c, srv, base)
 	if !waitUntil(func() bool {
 		k := kit.Snapshot()
 		return k.Rtsp == base.Rtsp && k.Flv == base.Flv && k.Wsp == base.Wsp
@@ -256,5 +257,144 @@ func c07svcRun(c *kit.Ctx, srv *kit.Server, it c07svcItem) {
 			continue
 		}
 		c.SetAdd("service_players_still_served_after_hostile_frame", it.name+":"+p.name)
+	}
+}
+
+// ---- hostile SDP in ANNOUNCE ---------------------------------------------------------------------------------
+
+// c07svcSDPs: single-field corruptions and truncations of the parameter fields of a valid H.264+AAC description.
+func c07svcSDPs() map[string]string {
+	v := kit.SDPH264AAC
+	rep := func(old, new string) string { return strings.Replace(v, old, new, 1) }
+	return map[string]string{
+		"aac-config-1-byte":         rep("config=121056E500", "config=12"),
+		"aac-config-empty":          rep("config=121056E500", "config="),
+		"aac-config-odd-hex":        rep("config=121056E500", "config=121"),
+		"aac-config-rate-escape":    rep("config=121056E500", "config=17"), // sampling index 0xF without the 24-bit rate
+		"aac-rtpmap-no-channels":    rep("MPEG4-GENERIC/44100/2", "MPEG4-GENERIC/44100"),
+		"aac-rtpmap-no-rate":        rep("MPEG4-GENERIC/44100/2", "MPEG4-GENERIC"),
+		"h264-sprop-truncated-sps":  rep("Z2QAH6zZQFAFuhAAAAMAEAAAAwPI8YMZYA==", "Z2QA"),
+		"h264-sprop-one-byte":       rep("Z2QAH6zZQFAFuhAAAAMAEAAAAwPI8YMZYA==,aO+8sA==", "Zw==,aA=="),
+		"h264-sprop-not-base64":     rep("Z2QAH6zZQFAFuhAAAAMAEAAAAwPI8YMZYA==", "!!!!"),
+		"h264-sprop-empty":          rep("sprop-parameter-sets=Z2QAH6zZQFAFuhAAAAMAEAAAAwPI8YMZYA==,aO+8sA==", "sprop-parameter-sets="),
+		"h264-rtpmap-clock-garbage": rep("H264/90000", "H264/x"),
+		"sizelength-huge":           rep("sizelength=13", "sizelength=4000000000"),
+	}
+}
+
+func c07svcHostileSDP(c *kit.Ctx, srv *kit.Server, base kit.Counters) {
+	sdps := c07svcSDPs()
+	var names []string
+	for n := range sdps {
+		names = append(names, n)
+	}
+	sort.Strings(names)
+	// ledger of converter goroutines by identity (hook enter/exit): whatever a session started must be gone when it is gone
+	var lmu sync.Mutex
+	liveSet := map[interface{}]string{}
+	liveN := func() int { lmu.Lock(); defer lmu.Unlock(); return len(liveSet) }
+	rules := []*kit.Rule{}
+	for _, n := range []string{"rtpdemuxer", "flvmuxer", "tsmuxer"} {
+		n := n
+		rules = append(rules, kit.H.On(n+".enter", nil, func(_ string, a []interface{}) {
+			if len(a) > 0 {
+				lmu.Lock()
+				liveSet[a[0]] = n
+				lmu.Unlock()
+			}
+		}), kit.H.On(n+".exit", nil, func(_ string, a []interface{}) {
+			if len(a) > 0 {
+				lmu.Lock()
+				delete(liveSet, a[0])
+				lmu.Unlock()
+			}
+		}))
+	}
+	defer kit.RemoveAll(rules)
+	for ni, name := range names {
+		if !c.Mine(100 + ni) {
+			continue
+		}
+		scen := "service/hostile-sdp/" + name
+		c.Pre("C07 " + scen)
+		detail := map[string]interface{}{"scenario": scen, "sdp": sdps[name]}
+		path := fmt.Sprintf("/c07sdp/s%d/%s", c.Shard, name)
+		// start from a quiet server: what earlier scenarios held has been released
+		if !waitUntil(func() bool { k := kit.Snapshot(); return k.Rtsp == base.Rtsp && k.Flv == base.Flv && liveN() == 0 }, 8*time.Second) {
+			c.Inconclusive("hostile sdp: server not quiet before the scenario")
+			continue
+		}
+		before := kit.Snapshot()
+		cl, err := kit.DialRTSP(srv.Addr)
+		if err != nil {
+			c.Inconclusive("hostile sdp: dial: " + err.Error())
+			continue
+		}
+		code, perr := cl.Publish(srv.URL(path), sdps[name])
+		outcome := "refused"
+		if perr == nil {
+			outcome = "accepted"
+			// the stream was accepted: well-formed video that follows must be relayed
+			pl, err := c03Attach(srv, path, "rtsp-tcp")
+			if err != nil {
+				c.SetAdd("service_hostile_sdp_player_attach", name+":"+err.Error())
+			} else {
+				stopFeed := int32(0)
+				fd := make(chan struct{})
+				go func() {
+					defer close(fd)
+					for s := uint16(1); atomic.LoadInt32(&stopFeed) == 0 && s < 3000; s++ {
+						typ := byte(1)
+						if s%10 == 1 {
+							typ = 5
+						}
+						p := kit.MakeRTP(kit.ChVideo, 96, true, s, uint32(s)*3000, 0x79, kit.H264NAL(2, typ, 200, uint64(s)+1))
+						if cl.WriteFrame(0, p.Data) != nil {
+							return
+						}
+						time.Sleep(2 * time.Millisecond)
+					}
+				}()
+				got := waitUntil(func() bool { return atomic.LoadInt64(&pl.rx) > 5 }, 8*time.Second)
+				atomic.StoreInt32(&stopFeed, 1)
+				<-fd
+				pl.close()
+				if !got {
+					c.Violation("C07:service:accepted-stream-does-not-relay-after-hostile-sdp:"+name, detail)
+				}
+			}
+		} else if code == 0 {
+			outcome = "connection-closed-during-handshake"
+		}
+		c.SetAdd("service_hostile_sdp_outcomes", name+":"+outcome)
+		cl.Close()
+		c.Eval(1)
+		c.Distinct(scen)
+		// nothing of the hostile session may stay behind: converter goroutines, registration, connection counters
+		if !waitUntil(func() bool {
+			k := kit.Snapshot()
+			return liveN() == 0 && media.Get(path) == nil && k.Rtsp == before.Rtsp
+		}, 8*time.Second) {
+			detail["converter_goroutines_left"] = liveN()
+			detail["registered"] = media.Get(path) != nil
+			detail["counters_before"], detail["counters_now"] = before.String(), kit.Snapshot().String()
+			what := "connection-counter"
+			if liveN() > 0 {
+				what = "converter-goroutines"
+			} else if media.Get(path) != nil {
+				what = "registration"
+			}
+			c.Violation("C07:service:left-behind-after-hostile-sdp:"+what+":"+name, detail)
+		}
+		// and the server still serves: a valid publisher on a fresh path
+		ok2, err := kit.DialRTSP(srv.Addr)
+		if err == nil {
+			if _, err := ok2.Publish(srv.URL(path+"-valid"), kit.SDPH264AAC); err != nil {
+				detail["err"] = err.Error()
+				c.Violation("C07:service:valid-publisher-refused-after-hostile-sdp:"+name, detail)
+			}
+			ok2.Close()
+			waitUntil(func() bool { return media.Get(path+"-valid") == nil }, 5*time.Second)
+		}
 	}
 }
